@@ -27,32 +27,62 @@ FUNCTIONS = [
     "autoarray.dataset.imaging.dataset.Imaging.convolver",
 ]
 BOUNDS = {
-    "quick": "TODO",
-    "thorough": "TODO",
+    "quick": "SYMBOLIC (solver variables, signed reals): every kernel entry, every value of the native frame (image, blurring image and "
+             "arbitrary values outside both), every mapping-matrix entry (1-2 columns), background sky level.  ENUMERATED: masks by forking over "
+             "ALL interior masks (>= 1 unmasked pixel; outer ring of half a kernel masked = footprint inside the frame) of interior 3x3 for kernel "
+             "(3,3), 2x3 / 3x2 for (3,5),(5,3),(1,3),(3,1), 2x2 for (1,1); 7 listed larger masks (hole, two components, checkerboard, full 5x5 block, "
+             "L-shape) with kernels (3,3),(3,5),(5,3),(5,5),(1,7),(7,1); whole-frame convolution: all masks of 2x3 / 3x2 frames for 12 odd kernel "
+             "shapes 1..7 x 1..7 plus 6 unmasked frames up to 5x4 (frames smaller than the kernel included); 11 kernel shapes with an even axis; "
+             "simulate->mask->fit: all interior masks 2x3 with a (3,3) PSF and listed masks with (3,5),(5,3),(3,3) PSFs.",
+    "thorough": "as quick, with: all interior masks 3x4 for kernel (3,3); 3x3 for (3,5),(5,3),(5,5),(1,3),(3,1),(1,1); 2x4 / 4x2 for (1,5),(5,1); 2x3 / 3x2 "
+                "for (7,3),(3,7); 2x2 for (7,7); 18 listed larger masks with kernels up to (7,7); all 16 odd kernel shapes 1..7 x 1..7 whole-frame, "
+                "unmasked frames up to 7x5; simulate->mask->fit on all interior masks 3x3 and PSFs up to (7,3),(3,7),(5,5).",
 }
-OUTSIDE = []
-STUBS = []
-ASSUMPTIONS = []
+OUTSIDE = [
+    "masks whose kernel footprint leaves the frame (Convolver raises MaskException via blurring_mask_2d_from - property C10; Imaging pads instead)",
+    "interior regions larger than 12 pixels other than the listed patterns; kernel axes longer than 7; more than 2 mapping-matrix columns",
+    "simulation clause: PSF total fixed to 1 (normalize_psf=False) or 2 (normalize_psf=True) with all entries otherwise free - a free total makes the "
+    "double normalisation (simulator, then Imaging) a rational identity that z3 does not decide in 90 s; expected counts (convolved image + background) "
+    "below 2^-10 - SimulatorImaging draws np.random.poisson even with add_poisson_noise_to_data=False and numpy rejects negative rates (ValueError)",
+    "Poisson / noise-map stages of the simulator (switched off), Kernel2D.rescaled_with_odd_dimensions_from, convolve_image_no_blurring_interpolation",
+    "float64 rounding of the accumulation order (sat verdicts are replayed in float64 with tolerance 1e-7)",
+]
+STUBS = [
+    "scipy.signal.convolve2d / correlate2d on symbolic arguments: bilinear map extracted from the REAL scipy routine on basis images x basis kernels for the "
+    "call's shapes/mode/boundary (contract: the routine is bilinear in its two array arguments); concrete calls go to scipy unchanged; every path is "
+    "cross-validated against the real routine under a solver model",
+    "autoarray.dataset.preprocess.data_eps_with_poisson_noise_added on symbolic data: returns its input (contract: with both noise switches off "
+    "SimulatorImaging.via_image_from discards this value; the replay runs the real function)",
+    "Convolver.convolve_matrix_jit runs through the merge interpreter (if-conversion of its real source) so the value-dependent shortcut `if value ...:` is "
+    "one guarded term instead of 2^n forks; harness-side additions to the interpreter: strong update of block-local variables (dead on entry of their "
+    "block), algebraic lifting If(g,a+x,a) -> a+If(g,x,0), If(g,u*w,0) -> u*If(g,w,0), and solver-justified removal of guards whose skipped "
+    "contribution is provably zero",
+]
+ASSUMPTIONS = [
+    "mask bits explored by forking (one path per mask); all values are solver variables over the reals",
+    "reference: out[t] = sum_s K[t - s + half] * c[s] with c = image on unmasked pixels, blurring image on masked pixels inside the footprint of an "
+    "unmasked pixel, 0 elsewhere and outside the frame (written independently in the harness)",
+]
 EXPLORER_OPTS = {"timeout_ms": 20000, "max_paths": 100000, "logic": "QF_NRA"}
-BUDGET_S = {"quick": 600, "thorough": 2300}
+BUDGET_S = {"quick": 900, "thorough": 2300}
 
 FINDING_NEG = "matrix-nonpositive-skipped"
 
 
 # ---------------------------------------------------------------------------- engine glue (no edits to symx/*)
 
-_REAL_CONVOLVE2D = [None]
+_REAL = {}
 _BILINEAR_CACHE = {}
 
 
-def _bilinear_table(shape_a, shape_k, mode, boundary, fillvalue):
+def _bilinear_table(fname, shape_a, shape_k, mode, boundary, fillvalue):
     """nonzero coefficients T[(out index)] -> list of ((a index), (k index), coeff) of the REAL scipy routine, extracted on
     basis images x basis kernels (contract: convolve2d is bilinear in its two array arguments)"""
-    key = (shape_a, shape_k, mode, boundary, fillvalue)
+    key = (fname, shape_a, shape_k, mode, boundary, fillvalue)
     hit = _BILINEAR_CACHE.get(key)
     if hit is not None:
         return hit
-    real = _REAL_CONVOLVE2D[0]
+    real = _REAL[fname]
     table = {}
     out_shape = None
     for ki in np.ndindex(*shape_k):
@@ -71,13 +101,13 @@ def _bilinear_table(shape_a, shape_k, mode, boundary, fillvalue):
     return out_shape, table
 
 
-def _convolve2d_stub(in1, in2, mode="full", boundary="fill", fillvalue=0):
+def _bilinear_stub(fname, in1, in2, mode="full", boundary="fill", fillvalue=0):
     from symx import shim
     a, k = shim.unwrap(in1), shim.unwrap(in2)
     if not (shim.has_sym(a) or shim.has_sym(k)):
-        return _REAL_CONVOLVE2D[0](shim.normalise(a), shim.normalise(k), mode=mode, boundary=boundary, fillvalue=fillvalue)
+        return _REAL[fname](shim.normalise(a), shim.normalise(k), mode=mode, boundary=boundary, fillvalue=fillvalue)
     a, k = np.asarray(a, dtype=object), np.asarray(k, dtype=object)
-    out_shape, table = _bilinear_table(tuple(a.shape), tuple(k.shape), mode, boundary, fillvalue)
+    out_shape, table = _bilinear_table(fname, tuple(a.shape), tuple(k.shape), mode, boundary, fillvalue)
     out = shim.obj_full(out_shape, np.float64(0.0))
     for oi, terms in table.items():
         acc = np.float64(0.0)
@@ -200,9 +230,11 @@ def POST_INSTALL():
     from symx import merge
     from autoarray.operators.convolver import Convolver
     from autoarray.dataset import preprocess
-    if _REAL_CONVOLVE2D[0] is None:
-        _REAL_CONVOLVE2D[0] = scipy.signal.convolve2d
-        scipy.signal.convolve2d = _convolve2d_stub
+    import functools
+    for fname in ("convolve2d", "correlate2d"):
+        if fname not in _REAL:
+            _REAL[fname] = getattr(scipy.signal, fname)
+            setattr(scipy.signal, fname, functools.partial(_bilinear_stub, fname))
     f = Convolver.__dict__["convolve_matrix_jit"]
     f = getattr(f, "__func__", f)
     if not hasattr(f, "__wrapped_kernel__"):
@@ -215,16 +247,64 @@ def POST_INSTALL():
 
 def _stop_when_enough(ctx):
     """once a case holds max_candidates counterexample candidates, further paths add nothing (exit is 1 anyway)"""
-    if sum(1 for c in ctx.stats.candidates if c.known is None) >= ctx.max_candidates:
+    fresh = sum(1 for c in ctx.stats.candidates if c.known is None)
+    if fresh >= ctx.max_candidates or (fresh >= 1 and ctx.stats.sat >= 2 * ctx.max_candidates):
         for e in ctx.stack:
             e[1] = False
         raise PathAbort()
 
 
+def _vars(t, cache={}):
+    key = t.get_id()
+    hit = cache.get(key)
+    if hit is None:
+        hit, todo, seen = set(), [t], set()
+        while todo:
+            x = todo.pop()
+            if x.get_id() in seen:
+                continue
+            seen.add(x.get_id())
+            if z3.is_const(x):
+                if x.decl().kind() == z3.Z3_OP_UNINTERPRETED:
+                    hit.add(x.get_id())
+            else:
+                todo.extend(x.children())
+        if len(cache) < 200000:
+            cache[key] = hit
+    return hit
+
+
+def _mul_args(t):
+    if z3.is_mul(t):
+        out = []
+        for i in range(t.num_args()):
+            out.extend(_mul_args(t.arg(i)))
+        return out
+    return [t]
+
+
+def _guarded(g, x):
+    """If(g, x, 0) with the factors of x that do not share a variable with g pulled out:  If(g, u*w, 0) = u * If(g, w, 0)"""
+    gv = _vars(g)
+    outer, inner = [], []
+    for f in _mul_args(x):
+        (inner if (_vars(f) & gv) else outer).append(f)
+    if not inner or not outer:
+        return z3.If(g, x, z3.RealVal(0))
+    w = inner[0] if len(inner) == 1 else z3.Product(inner)
+    u = outer[0] if len(outer) == 1 else z3.Product(outer)
+    return u * z3.If(g, w, z3.RealVal(0))
+
+
+def _is_zero(t):
+    return z3.is_rational_value(t) and t.numerator_as_long() == 0
+
+
 def _lift_term(t, memo):
-    """equivalence-preserving normal form for guarded accumulation: If(g, a + x, a)  ->  a + If(g, x, 0).
-    (the merge interpreter turns `if c: acc += x` into nested ites; as a flat sum the same obligation is decided
-    ~50x faster by nlsat.)  Every other term is left untouched."""
+    """equivalence-preserving normal form for guarded accumulation (pure algebra, valid for all values):
+         If(g, a + x, a)  ->  a + If(g, x, 0)          If(g, u*w, 0)  ->  u * If(g, w, 0)   (u shares no variable with g)
+    The merge interpreter turns `if c: acc += x` into nested ites; as a flat sum of guarded products the obligation is
+    orders of magnitude easier for nlsat.  Every other term is left untouched."""
     key = t.get_id()
     hit = memo.get(key)
     if hit is not None:
@@ -232,13 +312,61 @@ def _lift_term(t, memo):
     out = t
     if z3.is_app_of(t, z3.Z3_OP_ITE) and z3.is_real(t):
         g, a, e = t.arg(0), t.arg(1), t.arg(2)
-        if z3.is_add(a):
+        if _is_zero(e):
+            out = _guarded(g, a)
+        elif z3.is_add(a):
             args = [a.arg(i) for i in range(a.num_args())]
             hitpos = [i for i, x in enumerate(args) if x.eq(e)]
             if hitpos:
                 rest = [x for i, x in enumerate(args) if i != hitpos[0]]
                 extra = rest[0] if len(rest) == 1 else z3.Sum(rest)
-                out = _lift_term(e, memo) + z3.If(g, extra, z3.RealVal(0))
+                out = _lift_term(e, memo) + _guarded(g, extra)
+    memo[key] = out
+    return out
+
+
+def _resolve_term(ctx, t, gamma, leaf_memo, memo=None):
+    """replace every  If(g, w, 0)  inside t by  w  when the solver proves  path condition & gamma & not g  =>  w = 0
+    (e.g. `if value != 0: acc += value * k`: skipping a zero contribution changes nothing).  Each replacement is justified
+    by its own unsat verdict, so the result is equivalent to t under the path condition and gamma."""
+    if memo is None:
+        memo = {}
+    key = t.get_id()
+    hit = memo.get(key)
+    if hit is not None:
+        return hit
+    out = t
+    if z3.is_app_of(t, z3.Z3_OP_ITE) and z3.is_real(t) and _is_zero(t.arg(2)):
+        g, w = t.arg(0), t.arg(1)
+        tv = _vars(t)
+        rel = [c for c in gamma if _vars(c) <= tv]          # a subset of gamma suffices (and makes the verdict reusable)
+        lkey = (key,) + tuple(sorted(c.get_id() for c in rel))
+        out = leaf_memo.get(lkey)
+        if out is None:
+            out = t
+            s = z3.SolverFor("QF_NRA")
+            s.set("timeout", 5000)
+            s.add(*ctx.constraints)
+            s.add(*rel)
+            s.add(z3.Not(g), w != 0)
+            import time
+            t0 = time.time()
+            r = str(s.check())
+            ctx.stats.queries += 1
+            ctx.stats.solver_time += time.time() - t0
+            if r == "unsat":
+                out = w
+            leaf_memo[lkey] = out
+    elif not z3.is_const(t) and z3.is_app(t) and z3.is_real(t):
+        kids = t.children()
+        new = [_resolve_term(ctx, k, gamma, leaf_memo, memo) if z3.is_real(k) else k for k in kids]
+        if any(not a.eq(b) for a, b in zip(new, kids)):
+            if z3.is_add(t):
+                out = z3.Sum(new)
+            elif z3.is_mul(t):
+                out = z3.Product(new)
+            elif t.decl().arity() == len(new):
+                out = t.decl()(*new)
     memo[key] = out
     return out
 
@@ -372,13 +500,35 @@ def case_convolver(ctx, H, W, ky, kx, ncols, masks=None, pattern=None):
     n = len(pos)
     B = V.real_array("B", (n, ncols))
     inputs = {"mask": mask, "v": V.real_array("v", (H, W)), "K": V.real_array("K", (ky, kx)), "B": B}
-    known = {}
-    if FINDING_NEG in _known_ids():
-        for c in range(ncols):
-            for k, t in enumerate(pos):
-                src = [i for i, p in enumerate(pos) if abs(p[0] - t[0]) <= ky // 2 and abs(p[1] - t[1]) <= kx // 2]
-                known["mapping_matrix_col_%d_px_%d" % (c, k)] = {FINDING_NEG: z3.Or(*[B[i, c].t < 0 for i in src])}
-    hx.run_body(ctx, body_convolver, inputs, {"H": H, "W": W, "ky": ky, "kx": kx, "ncols": ncols}, validate_every=32, known=known)
+    kw = {"H": H, "W": W, "ky": ky, "kx": kx, "ncols": ncols}
+    mm = lambda k: k.startswith("mapping_matrix_")
+    ctx.set_inputs(**inputs)
+    actual, expected = body_convolver(inputs, **kw)
+    hx.check_all(ctx, actual, expected, only=[k for k in expected if not mm(k)])
+    # mapping-matrix entries: one obligation per (column, image pixel).  The value-dependent shortcut of convolve_matrix_jit
+    # (`if value ...:`) arrives here as a sum of guarded products; guards whose skipped contribution is provably zero
+    # are discharged one by one (see _resolve_term) so that the remaining identity is polynomial.
+    active = FINDING_NEG in _known_ids()
+    memo_free, memo_out = {}, {}
+    for key in [k for k in expected if mm(k)]:
+        a, e = actual[key], expected[key]
+        if isinstance(a, hx.Raised) or not V.is_sym(a):
+            ctx.check(key, hx.eq_terms(a, e))
+            continue
+        c, k = int(key.split("_")[3]), int(key.split("_")[5])
+        t = pos[k]
+        src = [i for i, p in enumerate(pos) if abs(p[0] - t[0]) <= ky // 2 and abs(p[1] - t[1]) <= kx // 2]
+        et = V.to_real_term(e)
+        if active:
+            region = z3.Or(*[B[i, c].t < 0 for i in src])       # some entry that blurs into this pixel is negative
+            outside = [z3.Not(x) for x in ([B[i, c].t < 0 for i in src])]
+            a_out = _resolve_term(ctx, a.t, outside, memo_out)
+            ctx.check(key, z3.Or(region, a_out == et))                                    # outside the region: must hold
+            a_in = _resolve_term(ctx, a.t, [], memo_free)
+            ctx.check(key, z3.Or(z3.Not(region), a_in == et), known={FINDING_NEG: region})  # inside: recorded finding
+        else:
+            ctx.check(key, _resolve_term(ctx, a.t, [], memo_free) == et)
+    hx.validate(ctx, body_convolver, inputs, kw, actual, every=32)
 
 
 # ---------------------------------------------------------------------------- case 2: whole-frame convolution (simulator's operator)
@@ -489,7 +639,7 @@ def case_simulate(ctx, H, W, ky, kx, normalize, masks=None, pattern=None):
     for t in every:
         c = ref_conv_at(v, every, K, t)
         ct = V.to_real_term(c)
-        ctx.assume((ct / tot if normalize else ct) + bg.t >= 0)
+        ctx.assume((ct / 2 if normalize else ct) + bg.t >= V.rval(2.0 ** -10))
     inputs = {"mask": mask, "v": v, "K": K, "bg": [bg]}
     tol = {"simulated_data": None, "residual_of_generating_image": None}
     hx.run_body(ctx, body_simulate, inputs, {"H": H, "W": W, "ky": ky, "kx": kx, "normalize": normalize}, validate_every=8, tol=tol)
@@ -522,11 +672,11 @@ def cases(tier):
     quick = tier == "quick"
     out = []
     # (a) Convolver on every interior mask (outer ring of half a kernel masked)
-    plan = [((3, 3), (3, 3), 2, 4), ((3, 5), (3, 3), 1, 4), ((5, 3), (3, 3), 1, 4), ((1, 3), (2, 3), 1, 0), ((3, 1), (3, 2), 1, 0), ((1, 1), (2, 3), 1, 0)]
+    plan = [((3, 3), (3, 3), 2, 4), ((3, 5), (2, 3), 1, 1), ((5, 3), (3, 2), 1, 1), ((1, 3), (2, 3), 1, 1), ((3, 1), (3, 2), 1, 1), ((1, 1), (2, 2), 1, 0)]
     if not quick:
-        plan = [((3, 3), (3, 4), 2, 6), ((3, 3), (4, 3), 1, 6), ((3, 5), (3, 3), 2, 4), ((5, 3), (3, 3), 2, 4), ((5, 5), (3, 3), 1, 4),
+        plan = [((3, 3), (3, 4), 1, 7), ((3, 3), (3, 3), 2, 4), ((3, 5), (3, 3), 2, 4), ((5, 3), (3, 3), 2, 4), ((5, 5), (3, 3), 1, 4),
                 ((1, 3), (3, 3), 1, 3), ((3, 1), (3, 3), 1, 3), ((1, 1), (3, 3), 1, 3), ((1, 5), (2, 4), 1, 2), ((5, 1), (4, 2), 1, 2),
-                ((7, 3), (2, 3), 1, 0), ((3, 7), (3, 2), 1, 0), ((7, 7), (2, 2), 1, 0)]
+                ((7, 3), (2, 3), 1, 1), ((3, 7), (3, 2), 1, 1), ((7, 7), (2, 2), 1, 0)]
     for (ky, kx), (ih, iw), ncols, split in plan:
         out.append(("case_convolver", {"H": ih + 2 * (ky // 2), "W": iw + 2 * (kx // 2), "ky": ky, "kx": kx, "ncols": ncols}, {"split": split}))
     # (b) Convolver on listed larger masks (holes, several components)
